@@ -53,7 +53,10 @@ PID = "C14"
 ALL = list(FLAVOURS)
 OID_LOCAL = ["oid-oid", "oid-oid-ci"]
 KINDS_ANY = ["dup", "batch", "walk", "idless", "vanished"]
-KINDS_STABLE = ["delay", "replay", "droppath", "hold", "walkonly"]
+KINDS_STABLE = ["delay", "replay", "droppath", "hold", "walkonly", "dirlast"]
+# dirlast  a child's event precedes its parent's: every "exists" event of a FOLDER of the side is kept back - either for an
+#          arbitrary number (0..12) of delivery opportunities, or ("drain") until the engine has worked its changeset empty
+#          and is completely idle - while the events of files are delivered promptly               (id-stable sides only)
 KINDS = KINDS_ANY + ["delay", "replay", "droppath"]          # the kinds of the random families (one at a time and all together)
 # hold     every event of the side is held back until the engine has gone completely quiet on everything else (the other
 #          side's changes are taken in AND synced first), then released                     (id-stable sides only)
@@ -81,6 +84,7 @@ class Mangler:
         self.inner = self.p.events
         self.held = []                      # [countdown, event]
         self.frozen = []                    # 'hold': events kept back until the engine is quiet on everything else
+        self.dirlast_drain = rng.random() < 0.6   # 'dirlast': folder events wait for an idle engine (else a random countdown)
         self.dirty = False                  # 'walkonly': an event was dropped since the last walk
         self.out = collections.deque()
         self.log = []                       # every genuine event seen, in provider order
@@ -190,6 +194,19 @@ class Mangler:
             self.stats["idless"] += 1
         if "vanished" in k and rng.random() < extra_p:
             batch.insert(rng.randint(0, len(batch)), self._extra_vanished())
+        if "dirlast" in k:
+            from cloudsync.types import DIRECTORY as _DIR
+            rest = []
+            for e in batch:
+                if e.otype == _DIR and e.exists is True and e.oid is not None:
+                    self.stats["folder-event-kept-back"] += 1
+                    if self.dirlast_drain:
+                        self.frozen.append(e)
+                    else:
+                        self.held.append([rng.randint(0, 12), e])
+                else:
+                    rest.append(e)
+            batch = rest
         if "hold" in k:
             self.frozen.extend(batch)
         elif "delay" in k:
@@ -760,6 +777,29 @@ def walkonly_scenarios():
                     yield ("walk:%s:s=%d:base=%d" % (ch, s, bs), fl, base, [win], s)
 
 
+def reuse_scenarios():
+    """systematic: PATH RE-USE after a synced deletion.  An object at path p is synced, deleted (deletion synced: the
+    discarded entry keeps its path), and then - in one unsynced window, on the id-stable side s - a NEW object (new id) is
+    created at p: file->file, folder->folder with children, file->folder, folder->file; children are created inside the
+    re-created folder.  Yields (label, flavour, base, windows, s)"""
+    for s in (0, 1):
+        for fl in WALK_FLAVOURS[s]:
+            for bs in (0, 1):
+                for ds in (0, 1):
+                    for where in ("/d", "/g/d"):
+                        pre = [(bs, "mkdir", "/g")] if where.startswith("/g/") else []
+                        for old in ("file", "folder", "folder+child"):
+                            base = pre + {"file": [(bs, "create", where)], "folder": [(bs, "mkdir", where)],
+                                          "folder+child": [(bs, "mkdir", where), (bs, "create", where + "/old.txt")]}[old]
+                            dele = ([(ds, "delete", where + "/old.txt")] if old == "folder+child" else []) + [(ds, "delete", where)]
+                            for new in ("file", "folder+child", "folder+deep"):
+                                rec = {"file": [(s, "create", where)],
+                                       "folder+child": [(s, "mkdir", where), (s, "create", where + "/f.txt")],
+                                       "folder+deep": [(s, "mkdir", where), (s, "mkdir", where + "/sub"), (s, "create", where + "/sub/f.txt"),
+                                                       (s, "create", where + "/k.txt")]}[new]
+                                yield ("reuse:%s:%s->%s:s=%d:base=%d:del=%d" % (where, old, new, s, bs, ds), fl, base, [dele, rec], s)
+
+
 def name_reuse(script):
     """syntactic: inside one unsynced window (between two quiescence markers) some path that was freed (deleted or
     renamed away) - or its case variant - is occupied again (create / mkdir / rename destination).  The pinned engine
@@ -850,10 +890,10 @@ def kinds_for(hist, kinds, mseed=0):
     not exist yet when the earlier events of that id are trickled in, and the pinned engine, reading the dead id as
     MISSING five times, re-creates the object from the other side (known finding pathid-stale-id-punted-out)."""
     ks = mangle_sides(kinds)
-    if any(k in ("hold1", "walkonly1") for v in ks.values() for k in v):
+    if any(k in ("hold1", "walkonly1", "dirlast1") for v in ks.values() for k in v):
         # `hold1` / `walkonly1`: on ONE id-stable side (chosen by the mangle seed), nothing on the other side
         stable = [sd for sd in (0, 1) if stable_side(hist["flavour"], sd)]
-        tok = [k for k in ks[0] if k in ("hold1", "walkonly1")][0]
+        tok = [k for k in ks[0] if k in ("hold1", "walkonly1", "dirlast1")][0]
         if not stable:
             ks = {0: [], 1: []}
         else:
@@ -931,6 +971,13 @@ def scenario_runs(which, seed, rounds):
                     k += 1
                     kinds = {"a": {a: ["hold"], 1 - a: []}, "b": {a: [], 1 - a: ["hold"]}, "delay": {0: ["delay", "dup"], 1: ["delay", "dup"]}}[held]
                     yield ("twosided", label + ":held=" + held, fl, base, wins, kinds, "r%d" % r, (seed + 1) * 7919 + k)
+        if which in ("reuse", "all"):
+            for label, fl, base, wins, sd in reuse_scenarios():
+                for how in ("dirlast", "dirlast+old", "hold", "delay"):
+                    k += 1
+                    kinds = {"dirlast": {sd: ["dirlast"], 1 - sd: []}, "dirlast+old": {sd: ["dirlast", "replay", "vanished", "dup"], 1 - sd: ["dup"]},
+                             "hold": {sd: ["hold"], 1 - sd: []}, "delay": {0: ["delay", "dup"], 1: ["delay", "dup"]}}[how]
+                    yield ("reuse", label + ":how=" + how, fl, base, wins, kinds, "r%d" % r, (seed + 1) * 7919 + k)
         if which in ("walkonly", "all"):
             for label, fl, base, wins, sd in walkonly_scenarios():
                 for other in ("plain", "dup"):
@@ -948,7 +995,7 @@ def calibrate_scenarios(argv):
     bad = collections.Counter()
     t0 = _time.time()
     for fam, label, fl, base, wins, kinds, salt, mseed in scenario_runs(which, seed0, rounds):
-        hist = gen_scripted(fam, fl, seed0, salt + label.split(":held=")[0].split(":other=")[0], base, wins, label=label)
+        hist = gen_scripted(fam, fl, seed0, salt + label.split(":held=")[0].split(":other=")[0].split(":how=")[0], base, wins, label=label)
         cls = re_class(label)
         if not hist["ok"]:
             tot[(cls, "A-not-converged")] += 1
@@ -967,7 +1014,7 @@ def calibrate_scenarios(argv):
 def re_class(label):
     """scenario class = the label without direction / base side"""
     import re
-    return re.sub(r":a=\d|:s=\d|:base=\d", "", label)
+    return re.sub(r":a=\d|:s=\d|:base=\d|:del=\d", "", label)
 
 
 def calibrate(argv):
@@ -1337,6 +1384,81 @@ def run_pe_case(c):
     return line, impl, kind, (ev["oid"] is None, ev["from_walk"], ev["ex"], ev["otype"].value, bool(ev["path"]), len(c["ents"]))
 
 
+def gen_fnf_cases(rng, n):
+    """index contents at the parent path of a child whose creation failed with CloudFileNotFoundError: any mix of live
+    entries, tombstones (discarded / irrelevant), conflicted entries, entries at other paths; child priority 0..7; the
+    provider has / has not the parent folder"""
+    for _ in range(n):
+        ents = []
+        for k in range(rng.randint(0, 4)):
+            ents.append({"oid": "p%d" % k, "path": rng.choice(["/local/d", "/local/d", "/local/d", "/local/other", "/local/D"]),
+                         "ign": rng.choice(["n", "d", "d", "i", "c", "t"]), "ex": rng.choice("PTMU"), "changed": rng.choice([0, 50])})
+        yield {"ents": ents, "prio": rng.choice([0, 0, 1, 2, 3, 5, 6, 7]), "has": rng.random() < 0.6}
+
+
+def run_fnf_case(c):
+    """the REAL SyncManager.handle_cloud_file_not_found_error on a real state; observed: CloudTooManyRetriesError / whether the
+    provider was asked for the parent (only when no entry was found) / whether the synthetic parent event was injected /
+    which entry the parent lookup returned first"""
+    from cloudsync.types import DIRECTORY, FILE
+    import cloudsync.exceptions as ex
+    w = World("oid-oid")
+    try:
+        st, mgr = w.cs.state, w.cs.smgr
+        mw = ModelWorld.__new__(ModelWorld)
+        mw.state = st
+        made = [ModelWorld.make_entry(mw, DIRECTORY, e["oid"], e["path"], None, e["ex"], None, e["changed"], 0, e["ign"]) for e in c["ents"]]
+        child = ModelWorld.make_entry(mw, FILE, "child1", "/local/d/f.txt", b"h", "P", None, 60, 0, "n")
+        child._priority = c["prio"]
+        if c["has"]:
+            w.provs[0].mkdir("/local")
+            w.provs[0].mkdir("/local/d")
+        idx, seen = [], set()
+        for path, d in st._paths[0].items():
+            for ent in d.values():
+                if id(ent) not in seen and ent is not child:
+                    seen.add(id(ent))
+                    idx.append(ent)
+        asked, injected, found = [], [], []
+        cls = type(st)
+        s_lookup, s_update = cls.lookup_path, cls.update
+        p_info = w.provs[0].info_path
+
+        def lookup(self_, side, path, stale=False):
+            r = s_lookup(self_, side, path, stale=stale)
+            found.append(r[0][side].oid if r else None)
+            return r
+        cls.lookup_path = lookup
+        cls.update = lambda self_, side, otype, oid, **kw: injected.append((side, oid, kw.get("path")))
+        w.provs[0].info_path = lambda path, use_cache=True: (asked.append(path), p_info(path))[1]
+        try:
+            try:
+                mgr.handle_cloud_file_not_found_error(0, child, 1)
+                raised = False
+            except ex.CloudTooManyRetriesError:
+                raised = True
+            except AssertionError:
+                raised = False
+            except Exception as e:  # noqa  (a crash of the handler is an answer the model does not have: reported as a disagreement)
+                raised = "!" + type(e).__name__
+        finally:
+            cls.lookup_path, cls.update = s_lookup, s_update
+            w.provs[0].info_path = p_info
+        if isinstance(raised, str):
+            impl = raised
+        elif raised:
+            impl = "toomany"
+        elif asked:
+            impl = "inject" if injected else "noinfo"
+        else:
+            impl = "use " + enc_str(found[0] if found else None)
+        line = "fnf %d %s %s%s" % (c["prio"], enc_bool(c["has"]), enc_str("/local/d"), "".join(" | " + enc_side(x, 0) for x in idx))
+        key = (c["prio"] > 5, c["has"], tuple(sorted((e["path"], e["ign"]) for e in c["ents"])))
+        return line, impl, key
+    finally:
+        w.close()
+
+
 def model_tie(rng, n_ev, n_pe):
     lines, impls, keys, kinds = [], [], [], []
     hist = collections.Counter()
@@ -1361,6 +1483,10 @@ def model_tie(rng, n_ev, n_pe):
         line, impl, kind, key = run_pe_case(c)
         lines.append(line); impls.append(impl); keys.append(key); kinds.append("pe:" + kind)
         hist["pe:" + kind] += 1
+    for c in gen_fnf_cases(rng, max(60, n_pe // 6)):
+        line, impl, key = run_fnf_case(c)
+        lines.append(line); impls.append(impl); keys.append(key); kinds.append("fnf")
+        hist["fnf:" + impl.split()[0]] += 1
     outs = run_driver("monc14", lines)
     dis = []
     for line, impl, out, kind in zip(lines, impls, outs, kinds):
@@ -1727,6 +1853,14 @@ def oracle_state(rng, n):
         mw3.state.update(0, ev["otype"], oid3, exists=ev["ex"])
         if ent3.is_latest_side(0):
             return dict(desc, law="event_forces_reread", got="entry still counts as latest after an event")
+    for c in gen_fnf_cases(rng, max(40, n // 10)):
+        line, impl, key = run_fnf_case(c)
+        live_parent = [e for e in c["ents"] if e["path"] == "/local/d" and e["ign"] not in ("d", "i", "c")]
+        if c["prio"] <= 5 and c["has"] and not live_parent and impl != "inject":
+            return {"law": "fnf_injects_parent_when_no_live_entry", "parent": "/local/d", "child_priority": c["prio"], "provider_has_parent": True,
+                    "entries_in_index": repr(c["ents"]), "got": impl, "want": "inject (state.update(changed, DIRECTORY, <oid>, path=parent))"}
+        if c["prio"] <= 5 and live_parent and impl != "use " + enc_str(live_parent[0]["oid"]):
+            return {"law": "fnf_decision_table", "entries_in_index": repr(c["ents"]), "got": impl, "want": "use " + live_parent[0]["oid"]}
     for c in gen_pe_cases(rng, n):
         line, impl, kind, key = run_pe_case(c)
         ev = c["ev"]
@@ -1776,8 +1910,10 @@ CORE_SCENARIOS = ("file:/f.txt:write-vs-delete", "file:/f.txt:delete-vs-write", 
 
 def extra_cases(tier, seed):
     """(config name, kinds, history, mangle seed): `hold` on one id-stable side for the random families, `walkonly` on one
-    id-stable side for the deletion-free settled family, and the two systematic scenario classes (quick: the core classes
-    - edit-vs-delete of a synced file with either side held back, case-only renames seen through a walk only - in full,
+    id-stable side for the deletion-free settled family, `dirlast` (folder events after their children's) on one id-stable
+    side, and the three systematic scenario classes (quick: the core classes - edit-vs-delete of a synced file with either
+    side held back, case-only renames seen through a walk only, a folder with a child re-created on a path whose earlier
+    occupant was deleted and synced with the folder's event kept back - in full,
     the rest sampled 1 in 10 with a seed-dependent offset; thorough: everything, two schedules each)"""
     per = 6 if tier == "quick" else 80
     rng = rng_for(seed, "c14-extra")
@@ -1788,6 +1924,11 @@ def extra_cases(tier, seed):
         for fam, fl in fams[:6]:
             i += 1
             yield "hold", ["hold1"], gen_history(fam, fl, seed, "hold-%d" % i), (seed + 1) * 50021 + i
+    for _ in range(per):
+        rng.shuffle(fams)
+        for fam, fl in fams[:6]:
+            i += 1
+            yield "dirlast", ["dirlast1"], gen_history(fam, fl, seed, "dl-%d" % i), (seed + 1) * 50021 + i
     nd = list(FAMILY_FLAVOURS["settled-nd"])
     for _ in range(per):
         rng.shuffle(nd)
@@ -1798,10 +1939,11 @@ def extra_cases(tier, seed):
     for fam, label, fl, base, wins, kinds, salt, mseed in scenario_runs("all", seed, 1 if tier == "quick" else 2):
         k += 1
         if tier == "quick":
-            core = any(c in label for c in CORE_SCENARIOS) and not label.endswith(":held=delay") and not label.endswith(":other=dup")
+            core = (any(c in label for c in CORE_SCENARIOS) and not label.endswith(":held=delay") and not label.endswith(":other=dup")) \
+                or (label.startswith("reuse:") and "->folder+child" in label and label.endswith(":how=dirlast"))
             if not core and (k + seed) % 10:
                 continue
-        hist = gen_scripted(fam, fl, seed, salt + label.split(":held=")[0].split(":other=")[0], base, wins, label=label)
+        hist = gen_scripted(fam, fl, seed, salt + label.split(":held=")[0].split(":other=")[0].split(":how=")[0], base, wins, label=label)
         yield fam, kinds, hist, mseed
 
 
